@@ -835,3 +835,20 @@ pub proof fn lemma_closures_ok<D: Fn(u32, u32) -> u32, F: Fn(u32) -> bool>(m: Mi
         assert(call_ensures(m.is_final, (x,), r2));
     }
 }
+
+// changing one list changes the number of active splitters by the difference
+pub proof fn lemma_sum_update(ls: Seq<SplitterList>, b: int, l2: SplitterList)
+    requires 0 <= b < ls.len(),
+    ensures sum_active(ls.update(b, l2)) + ls[b].num_active == sum_active(ls) + l2.num_active,
+    decreases ls.len(),
+{
+    let ls2 = ls.update(b, l2);
+    if b == ls.len() - 1 {
+        assert(ls2.drop_last() =~= ls.drop_last());
+    } else {
+        assert(ls2.drop_last() =~= ls.drop_last().update(b, l2));
+        lemma_sum_update(ls.drop_last(), b, l2);
+        assert(ls2.last() == ls.last());
+        assert(ls.drop_last()[b] == ls[b]);
+    }
+}
